@@ -5,6 +5,7 @@ Property theorems only; helper lemmas are in `Proofs/Framing.lean`.
 (regenerated from p2p/client.go on every run) to the 1 MiB of the property.
 -/
 import DosModel.Proofs.Framing
+import DosModel.Proofs.FramingInterleave
 import DosModel.Gen.P2PConsts
 
 namespace Dos.Props.C15
@@ -151,6 +152,26 @@ theorem end_to_end (L : Nat) (hL : L < 2 ^ 32) (p rest : Bytes) (hp1 : 1 ≤ p.l
   have := roundtrip_any_chunking L hL p rest hp1 hpL cs (by rw [hcs, h2])
   exact ⟨this.1, this.2.1⟩
 
+/-- **7a. the step machine (one `conn.Read` per step) is `readFrom`.**  Run long enough, the
+machine that cuts `readFrom` at its `Read` calls ends with exactly `readFrame`'s result. -/
+theorem machine_is_readFrame (L : Nat) (cs : List Bytes) :
+    ∃ k0, ∀ k, k0 ≤ k → readerResult (iterReader L k (initReader cs)) = some (readFrame L cs) :=
+  Framing.machine_is_readFrame L cs
+
+/-- **7b. concurrent connections do not disturb one another.**  Two readers on two connections,
+their `Read` calls interleaved by ANY schedule `sch` that is eventually long enough for both
+(`pre` arbitrary, then enough turns for each in any arrangement `tail`), end exactly where each
+would end alone: with `readFrame` of its own connection. -/
+theorem interleaving_independent (L : Nat) (ca cb : List Bytes) :
+    ∃ ka kb, ∀ sch : List Bool, ka ≤ countTrue sch → kb ≤ countFalse sch →
+      readerResult (runInter L sch (initReader ca, initReader cb)).1 = some (readFrame L ca) ∧
+      readerResult (runInter L sch (initReader ca, initReader cb)).2 = some (readFrame L cb) := by
+  obtain ⟨ka, ha⟩ := Framing.machine_is_readFrame L ca
+  obtain ⟨kb, hb⟩ := Framing.machine_is_readFrame L cb
+  refine ⟨ka, kb, fun sch h1 h2 => ?_⟩
+  rw [runInter_split]
+  exact ⟨ha _ h1, hb _ h2⟩
+
 /-- the statement of the property at the code's own limit -/
 theorem c15_at_code_limit (p rest : Bytes) (hp1 : 1 ≤ p.length) (hpL : p.length ≤ 2 ^ 20)
     (cs : List Bytes) (hcs : cs.flatten = natBE 4 p.length ++ p ++ rest) :
@@ -162,6 +183,11 @@ theorem c15_at_code_limit (p rest : Bytes) (hp1 : 1 ≤ p.length) (hpL : p.lengt
 /-! non-vacuity: concrete instances of the hypotheses -/
 example : (readFrame 1048576 [[0, 0], [0, 2, 7], [9, 5], [6]]).out = .ok [7, 9] ∧
     (readFrame 1048576 [[0, 0], [0, 2, 7], [9, 5], [6]]).rest.flatten = [5, 6] := ⟨rfl, rfl⟩
+/-- the interleaving a b b a … of the seeded shared-header-buffer change: both readers still get their own frame -/
+example : (readerResult (runInter 1048576 [true, false, false, true, true, false, true, false, true, false]
+      (initReader [[0, 0], [0, 2, 7, 9]], initReader [[0, 0, 0, 1], [5]])).1).map (·.out) = some (.ok [7, 9]) ∧
+    (readerResult (runInter 1048576 [true, false, false, true, true, false, true, false, true, false]
+      (initReader [[0, 0], [0, 2, 7, 9]], initReader [[0, 0, 0, 1], [5]])).2).map (·.out) = some (.ok [5]) := ⟨rfl, rfl⟩
 example : writeFrameTo 1048576 [7, 9] [1, 3] = some [[0], [0, 0, 2], [7, 9]] := rfl
 example : (readFrame 1048576 [[0, 0, 0], [0, 1, 1]]).out = .error .size := rfl
 example : (readFrame 1048576 [[0, 0, 0, 3], [1, 1]]).out = .error .body := rfl
